@@ -2,6 +2,8 @@ import BigtreeModel.Dag
 import BigtreeProofs.Lemmas.DagIter
 import BigtreeProofs.Lemmas.DagCons
 import BigtreeProofs.Lemmas.DagExport
+import BigtreeProofs.Lemmas.DagRows
+import BigtreeProofs.Lemmas.DagDict
 import BigtreeProofs.Properties.C16
 /-! # C17 — DAG exports are complete; re-importing them reproduces the DAG
 
@@ -76,5 +78,206 @@ theorem list_acyclic_accepted (rel : List Edge) (hne : rel ≠ []) (h : RelAcycl
 
 example : listToDag [(0, 1), (1, 2), (2, 0)] = .error .tree :=
   list_cycle_refused _ (fun h => h 0 (.step (b := 1) (by decide) (.step (b := 2) (by decide) (.edge (by decide)))))
+
+/-! ## dictionary format -/
+
+theorem iter_parent {g : Dag} (wf : DWF g) {v : Nat} (hv : v ∈ g.nodes) :
+    ∀ e ∈ g.dagIter v, e.1 ∈ g.parents e.2 := by
+  intro e he
+  obtain ⟨h1, h2⟩ := mem_edges.1 ((mem_dagIter wf hv).1 he).1
+  exact (wf.chi_closed _ h1 _ h2).2
+
+/-- `dag_to_dict` succeeds; its parent lists mention every edge exactly once; its keys are
+    exactly the node names (each once, being dictionary keys); parent-less entries are roots;
+    every entry carries the requested attributes of its node. -/
+theorem dict_export_each_edge_once {g : Dag} (wf : DWF g) (hc : g.Connected) {v : Nat}
+    (hv : v ∈ g.nodes) (hne : g.edges ≠ []) (sel : AttrSel) :
+    ∃ d, g.dagToDict sel v = some d ∧ (dictRel d).Perm g.edges ∧ (dictKeys d).Nodup ∧
+      (∀ x, x ∈ dictKeys d ↔ x ∈ g.nodes) ∧
+      (∀ ent ∈ d, ent.parents = none → g.parents ent.key = []) ∧
+      (∀ ent ∈ d, ent.attrs = attrUpdate [] (selAttrs sel (g.attrs ent.key))) := by
+  obtain ⟨d, hd, inv⟩ := dagToDict_spec wf sel hv
+  have hiter := C16.dag_iter_edges_connected wf hc hv
+  have hmem : ∀ e, e ∈ dictRel d ↔ e ∈ g.edges := fun e =>
+    (inv.mem_dictRel (iter_parent wf hv)).trans hiter.mem_iff
+  refine ⟨d, hd, ?_, inv.keys_nodup, ?_, inv.none_root, inv.attrs_spec⟩
+  · exact (perm_ext_iff_of_nodup inv.nodup_dictRel (nodup_edges wf)).2 hmem
+  · intro x
+    constructor
+    · intro hx
+      obtain ⟨ent, hent, rfl⟩ := mem_map.1 hx
+      exact inv.key_mem ent hent
+    · intro hx
+      obtain ⟨e, he, hxe⟩ := node_has_edge wf hc hne hx
+      have heit : e ∈ g.dagIter v := hiter.mem_iff.2 he
+      rcases hxe with rfl | rfl
+      · by_cases hroot : g.parents e.1 = []
+        · exact inv.roots e heit hroot
+        · obtain ⟨p, hp⟩ := exists_mem_of_ne_nil _ hroot
+          have hpe := wf.par_closed _ hx _ hp
+          have : (p, e.1) ∈ g.dagIter v := hiter.mem_iff.2 (mem_edges.2 ⟨hpe.1, hpe.2⟩)
+          exact inv.covers _ this
+      · exact inv.covers e heit
+
+/-- **Tier 1.** `dict_to_dag (dag_to_dict g)` succeeds and is a well-formed DAG with the same
+    edge set and the same node names as `g`. -/
+theorem dict_roundtrip {g : Dag} (wf : DWF g) (hc : g.Connected) {v : Nat} (hv : v ∈ g.nodes)
+    (hne : g.edges ≠ []) (sel : AttrSel) :
+    ∃ d b, g.dagToDict sel v = some d ∧ dictToDag d = .ok b ∧ b.dag.DWF ∧
+      (∀ e, e ∈ b.dag.edges ↔ e ∈ g.edges) ∧ (∀ x, x ∈ b.dag.nodes ↔ x ∈ g.nodes) := by
+  obtain ⟨d, hd, hperm, _, hkeys, _, _⟩ := dict_export_each_edge_once wf hc hv hne sel
+  have hrel : ∀ e, e ∈ dictRel d ↔ e ∈ g.edges := fun e => hperm.mem_iff
+  have hrelne : dictRel d ≠ [] := fun h => hne (by simpa [h] using hperm.symm)
+  have hdne : d ≠ [] := by rintro rfl; exact hrelne rfl
+  have hS : ∀ ent ∈ d, ent.key ∈ g.nodes ∧ ∀ p ∈ ent.parents.getD [], p ∈ g.nodes := by
+    intro ent hent
+    refine ⟨(hkeys _).1 (mem_map.2 ⟨ent, hent, rfl⟩), fun p hp => ?_⟩
+    have : (p, ent.key) ∈ dictRel d := Dag.mem_dictRel.2 ⟨ent, hent, rfl, hp⟩
+    exact (mem_edges.1 ((hrel _).1 this)).1
+  obtain ⟨b, hb, t, hnodes⟩ := (dictToDag_spec (S := (· ∈ g.nodes)) d hdne hS).1
+    (relAcyclic_of_edges wf fun e he => (hrel e).1 he) hrelne
+  exact ⟨d, b, hd, hb, rebuilt_of_tracks wf hc hne hrel t hnodes⟩
+
+example : ∃ d b, C16.diamond.dagToDict .all 3 = some d ∧ dictToDag d = .ok b ∧ b.dag.DWF ∧
+    (∀ e, e ∈ b.dag.edges ↔ e ∈ C16.diamond.edges) ∧ (∀ x, x ∈ b.dag.nodes ↔ x ∈ C16.diamond.nodes) :=
+  dict_roundtrip C16.diamond_wf diamond_connected (by decide) (by decide) .all
+
+example : (C16.diamond.dagToDict .all 3).map (fun d => d.map fun e => (e.key, e.parents)) =
+    some [(3, some [1, 2]), (0, none), (1, some [0]), (2, some [0])] := by decide
+
+/-- `dict_to_dag` refuses (TreeError) every dictionary whose parent lists contain a cycle. -/
+theorem dict_cycle_refused (d : List DEntry) (h : ¬ RelAcyclic (dictRel d)) :
+    dictToDag d = .error .tree := by
+  have hne : d ≠ [] := by rintro rfl; exact h relAcyclic_nil
+  exact (dictToDag_spec (S := fun _ => True) d hne (fun _ _ => ⟨trivial, fun _ _ => trivial⟩)).2 h
+
+/-! ## DataFrame format -/
+
+/-- `dag_to_dataframe`: the rows with a parent mention every edge exactly once; no row is
+    repeated; the names in the frame are exactly the node names; parent-less rows are roots. -/
+theorem rows_export_each_edge_once {g : Dag} (wf : DWF g) (hc : g.Connected) {v : Nat}
+    (hv : v ∈ g.nodes) (hne : g.edges ≠ []) (sel : AttrSel) :
+    (rowsRel (g.dagToRows sel v)).Perm g.edges ∧ (g.dagToRows sel v).Nodup ∧
+      (∀ x, (∃ r ∈ g.dagToRows sel v, r.name = x) ↔ x ∈ g.nodes) ∧
+      (∀ r ∈ g.dagToRows sel v, r.parent = none → g.parents r.name = []) := by
+  have hiter := C16.dag_iter_edges_connected wf hc hv
+  have hmem : ∀ e, e ∈ rowsRel (g.dagToRows sel v) ↔ e ∈ g.edges := fun e =>
+    mem_rowsRel_dagToRows.trans hiter.mem_iff
+  refine ⟨(perm_ext_iff_of_nodup nodup_rowsRel_dagToRows (nodup_edges wf)).2 hmem,
+    nodup_dropDups _, ?_, fun r hr hp => (root_rows_dagToRows hr hp).1⟩
+  intro x
+  constructor
+  · rintro ⟨r, hr, rfl⟩
+    cases hp : r.parent with
+    | none =>
+      obtain ⟨_, e, he, hname⟩ := root_rows_dagToRows hr hp
+      rw [← hname]
+      exact (mem_edges.1 (hiter.mem_iff.1 he)).1
+    | some p =>
+      have : (p, r.name) ∈ rowsRel (g.dagToRows sel v) := mem_rowsRel.2 ⟨r, hr, hp, rfl⟩
+      obtain ⟨h1, h2⟩ := mem_edges.1 ((hmem _).1 this)
+      exact (wf.chi_closed _ h1 _ h2).1
+  · intro hx
+    obtain ⟨e, he, hxe⟩ := node_has_edge wf hc hne hx
+    have child_row : ∀ e' ∈ g.edges, ∃ r ∈ g.dagToRows sel v, r.name = e'.2 := by
+      intro e' he'
+      obtain ⟨r, hr, _, hn⟩ := mem_rowsRel.1 ((hmem e').2 he')
+      exact ⟨r, hr, hn⟩
+    rcases hxe with rfl | rfl
+    · by_cases hroot : g.parents e.1 = []
+      · refine ⟨_, mem_dagToRows.2 ⟨_, mem_rawRows.2 ⟨e, hiter.mem_iff.2 he,
+          Or.inl ⟨hroot, rfl⟩⟩, rfl⟩, rfl⟩
+      · obtain ⟨p, hp⟩ := exists_mem_of_ne_nil _ hroot
+        have hpe := wf.par_closed _ hx _ hp
+        exact child_row (p, e.1) (mem_edges.2 ⟨hpe.1, hpe.2⟩)
+    · exact child_row e he
+
+theorem rowsConsistent_dagToRows (g : Dag) (sel : AttrSel) (v : Nat) :
+    rowsConsistent (g.dagToRows sel v) = true := by
+  have key : ∀ r ∈ g.dagToRows sel v, r.attrs =
+      (columnsOf (g.rawRows sel v)).map fun k =>
+        (k, ((attrUpdate [] (selAttrs sel (g.attrs r.name))).lookup k).getD .null) := by
+    intro r hr
+    obtain ⟨r0, hr0, rfl⟩ := mem_dagToRows.1 hr
+    obtain ⟨e, _, ⟨_, rfl⟩ | rfl⟩ := mem_rawRows.1 hr0 <;> rfl
+  unfold rowsConsistent
+  rw [all_eq_true]
+  intro r hr
+  rw [all_eq_true]
+  intro r' hr'
+  by_cases hn : r.name = r'.name
+  · have : r.attrs = r'.attrs := by rw [key r hr, key r' hr', hn]
+    simp [this]
+  · simp [hn]
+
+/-- **Tier 1 (structure).** `dataframe_to_dag (dag_to_dataframe g)` succeeds and is a well-formed
+    DAG with the same edge set and the same node names as `g`. -/
+theorem rows_roundtrip {g : Dag} (wf : DWF g) (hc : g.Connected) {v : Nat} (hv : v ∈ g.nodes)
+    (hne : g.edges ≠ []) (sel : AttrSel) :
+    ∃ b, rowsToDag (g.dagToRows sel v) = .ok b ∧ b.dag.DWF ∧
+      (∀ e, e ∈ b.dag.edges ↔ e ∈ g.edges) ∧ (∀ x, x ∈ b.dag.nodes ↔ x ∈ g.nodes) := by
+  obtain ⟨hperm, _, hnames, _⟩ := rows_export_each_edge_once wf hc hv hne sel
+  have hrel : ∀ e, e ∈ rowsRel (g.dagToRows sel v) ↔ e ∈ g.edges := fun e => hperm.mem_iff
+  have hrelne : rowsRel (g.dagToRows sel v) ≠ [] := fun h => hne (by simpa [h] using hperm.symm)
+  have hrne : g.dagToRows sel v ≠ [] := by
+    intro h; rw [h] at hrelne; exact hrelne rfl
+  have hS : ∀ r ∈ g.dagToRows sel v, r.name ∈ g.nodes ∧ ∀ p, r.parent = some p → p ∈ g.nodes := by
+    intro r hr
+    refine ⟨(hnames _).1 ⟨r, hr, rfl⟩, fun p hp => ?_⟩
+    have : (p, r.name) ∈ rowsRel (g.dagToRows sel v) := mem_rowsRel.2 ⟨r, hr, hp, rfl⟩
+    exact (mem_edges.1 ((hrel _).1 this)).1
+  obtain ⟨b, hb, t, hnodes⟩ := (rowsToDag_spec (S := (· ∈ g.nodes)) _ hrne
+    (rowsConsistent_dagToRows g sel v) hS).1 (relAcyclic_of_edges wf fun e he => (hrel e).1 he)
+  exact ⟨b, hb, rebuilt_of_tracks wf hc hne hrel t hnodes⟩
+
+example : ∃ b, rowsToDag (C16.diamond.dagToRows .all 3) = .ok b ∧ b.dag.DWF ∧
+    (∀ e, e ∈ b.dag.edges ↔ e ∈ C16.diamond.edges) ∧ (∀ x, x ∈ b.dag.nodes ↔ x ∈ C16.diamond.nodes) :=
+  rows_roundtrip C16.diamond_wf diamond_connected (by decide) (by decide) .all
+
+example : (C16.diamond.dagToRows .all 3).map (fun r => (r.name, r.parent)) =
+    [(3, some 1), (3, some 2), (0, none), (1, some 0), (2, some 0)] := by decide
+
+/-- `dataframe_to_dag` refuses every frame whose (parent, child) rows contain a cycle: with
+    TreeError when it gets as far as building (one attribute tuple per child name), otherwise
+    already with the ValueError of the attribute check. -/
+theorem rows_cycle_refused (rows : List Row) (h : ¬ RelAcyclic (rowsRel rows)) :
+    rowsToDag rows = .error .tree ∨
+      (rowsConsistent rows = false ∧ rowsToDag rows = .error .value) := by
+  have hne : rows ≠ [] := by rintro rfl; exact h relAcyclic_nil
+  cases hcons : rowsConsistent rows with
+  | true =>
+    exact Or.inl ((rowsToDag_spec (S := fun _ => True) rows hne hcons
+      (fun _ _ => ⟨trivial, fun _ _ => trivial⟩)).2 h)
+  | false =>
+    refine Or.inr ⟨rfl, ?_⟩
+    have hemp : rows.isEmpty = false := by cases rows <;> simp_all
+    simp [rowsToDag, hemp, hcons]
+
+/-! ## the two summary statements of DESIGN §6 -/
+
+/-- **Tier 1.** Every exporter lists every edge exactly once (as a permutation of the edge
+    list, read off the export the way the matching constructor reads it). -/
+theorem export_each_edge_once {g : Dag} (wf : DWF g) (hc : g.Connected) {v : Nat}
+    (hv : v ∈ g.nodes) (hne : g.edges ≠ []) (sel : AttrSel) :
+    (g.dagToList v).Perm g.edges ∧
+    (∃ d, g.dagToDict sel v = some d ∧ (dictRel d).Perm g.edges) ∧
+    (rowsRel (g.dagToRows sel v)).Perm g.edges :=
+  ⟨list_export_each_edge_once wf hc hv,
+   let ⟨d, hd, hp, _⟩ := dict_export_each_edge_once wf hc hv hne sel; ⟨d, hd, hp⟩,
+   (rows_export_each_edge_once wf hc hv hne sel).1⟩
+
+example : (C16.diamond.dagToList 3).Perm C16.diamond.edges ∧
+    (∃ d, C16.diamond.dagToDict .all 3 = some d ∧ (dictRel d).Perm C16.diamond.edges) ∧
+    (rowsRel (C16.diamond.dagToRows .all 3)).Perm C16.diamond.edges :=
+  export_each_edge_once C16.diamond_wf diamond_connected (by decide) (by decide) .all
+
+/-- **Tier 1.** All three constructors refuse a relation that contains a directed cycle
+    (TreeError; for frames possibly the earlier ValueError of the attribute check). -/
+theorem cycle_refused :
+    (∀ rel : List Edge, ¬ RelAcyclic rel → listToDag rel = .error .tree) ∧
+    (∀ d : List DEntry, ¬ RelAcyclic (dictRel d) → dictToDag d = .error .tree) ∧
+    (∀ rows : List Row, ¬ RelAcyclic (rowsRel rows) →
+      rowsToDag rows = .error .tree ∨ (rowsConsistent rows = false ∧ rowsToDag rows = .error .value)) :=
+  ⟨list_cycle_refused, dict_cycle_refused, rows_cycle_refused⟩
 
 end C17
